@@ -665,3 +665,67 @@ def rule_alloc_layout(u, rep):
                 rep.count("alloc_layout_safe_construction")
     rep.count("alloc_layout_sites", n)
     return n
+
+
+def rule_partial_leak(u, rep, scope_files, crate="epserde", rule="LEAK-PARTIAL"):
+    """A loop that moves freshly built values into uninitialised storage (ptr::write / MaybeUninit::write) and can
+    leave early (`?`, return) inside the same loop leaks the values already written — the storage is MaybeUninit or
+    spare capacity and drops nothing — unless the values need no drop (primitive, Copy/ZeroCopy-bounded parameter),
+    the container's length is maintained inside the loop, or the function drops the written prefix itself
+    (drop_in_place)."""
+    n = 0
+    for b in u.bodies.values():
+        if b.thir is None or b.d.get("krate") != crate or not rules_err.in_scope(b, scope_files) or b.kind not in ("Fn", "AssocFn"):
+            continue
+        loops = []
+
+        def find_loops(e):
+            if isinstance(e, dict):
+                if e.get("k") == "Loop":
+                    loops.append(e)
+                for v in e.values():
+                    find_loops(v)
+            elif isinstance(e, list):
+                for v in e:
+                    find_loops(v)
+        find_loops(b.thir["root"])
+        if not loops:
+            continue
+        whole = []
+        rules_err.calls_in(b.crate, b.thir["root"], whole)
+        cleans_up = any(dj.get("name") in ("drop_in_place",) for dj, _r, _e in whole)
+        for L in loops:
+            acc = []
+            rules_err.calls_in(b.crate, L, acc)
+            writes = []
+            for dj, rj, e in acc:
+                nm = dj.get("name")
+                pretty = dj.get("n") or ""
+                if nm == "write" and dj.get("krate") == "core" and ("ptr" in pretty or "MaybeUninit" in pretty or "maybe_uninit" in pretty) and len(e["args"]) == 2:
+                    vt = b.crate.ty(e["args"][1]["ty"])
+                    nodrop = vt[0] in ("prim", "never") or (vt[0] == "param" and copy_bounded(b, vt)) or (vt[0] == "ref")
+                    if not nodrop:
+                        writes.append((e, vt))
+            if not writes:
+                continue
+            n += 1
+            exits = []
+
+            def find_exits(e):
+                if isinstance(e, dict):
+                    if e.get("k") == "Return" or (e.get("k") == "Match" and str(e.get("src", "")).startswith("TryDesugar")):
+                        exits.append(e)
+                    for v in e.values():
+                        find_exits(v)
+                elif isinstance(e, list):
+                    for v in e:
+                        find_exits(v)
+            find_exits(L)
+            len_in_loop = any(dj.get("name") in ("set_len", "push") for dj, _r, _e in acc)
+            ok = not exits or cleans_up or len_in_loop
+            rep.oblige(ok)
+            if not ok:
+                rep.add(rule, b.n, "`%s` writes values of type `%s` into uninitialised storage in a loop that can leave early (`?`/return at %s): the values already written are never dropped (the storage is MaybeUninit / spare capacity), so a failed read leaks what they own"
+                        % (b.n, ty_str(writes[0][1]), b.crate.span(exits[0]["sp"])), b.crate.span(writes[0][0]["sp"]))
+    rep.count("uninit_fill_loops", n)
+    return n
